@@ -504,6 +504,19 @@ theorem insert_ext (s : Streams) (x : Stream) (hi : x.inFlightRecvData = 0)
       · exact .inl h
       · exact .inr (Nat.le_refl _)
 
+/-- the same, after the pair `Store::insert` returns has been destructured -/
+theorem insert_ext' (s : Streams) (x : Stream) (store : Store) (k : Nat) (heq : s.store.insert x = (store, k))
+    (hi : x.inFlightRecvData = 0) (hf : x.recvFlow = newRecvFlow s.recv.initWindowSz) :
+    Ext s { s with store := store } := by
+  have : store = (s.store.insert x).1 := by rw [heq]
+  rw [this]; exact insert_ext s x hi hf
+
+theorem remove_ext' (s : Streams) (k : Nat) : Ext s { s with store := s.store.remove k } :=
+  remove_ext s k s.recvBufferLeaked
+
+theorem unlinkRemove_ext (s : Streams) (id k : Nat) : Ext s { s with store := (s.store.unlink id).remove k } :=
+  (unlink_ext s id).trans (remove_ext' _ k)
+
 theorem insert_key (st : Store) (x : Stream) : (st.insert x).2 = st.nextKey := rfl
 
 end H2V.Lemmas.ConnRecvP
